@@ -68,6 +68,17 @@ pub fn run(tier: &str, out: &str) -> i32 {
     for k in 1..=8usize {
         writeln!(w, "H {} {}", k, OligoComputer::new("-".into(), "-".into(), k).verif_get_header().join(",")).unwrap();
     }
+    // decoding of k-mer codes (to_acgt of both iterator classes)
+    for k in 1..=6usize {
+        for x in 0..(1u64 << (2 * k)) {
+            writeln!(w, "T {} {} {}", k, x, kmer::numeric_to_kmer(x, k)).unwrap();
+        }
+    }
+    for k in [15usize, 16, 17, 28, 30, 31] {
+        for x in [0u64, 1, 2, 3, (1u64 << (2 * k)) - 1, (1u64 << (2 * k - 1)) + 5, 0x1234_5678_9abc_def0 & ((1u64 << (2 * k)) - 1)] {
+            writeln!(w, "T {} {} {}", k, x, kmer::numeric_to_kmer(x, k)).unwrap();
+        }
+    }
     // CGR (values and refusals)
     for s_size in [1usize, 16, 1000] {
         let c = CgrComputer::new("-".into(), "-".into(), s_size);
